@@ -89,6 +89,7 @@ pub struct Target {
     pub dir: String,
     pub spec: Spec,
     pub keep_dir: bool,
+    pub pause_threads: Vec<usize>,
 }
 
 static COUNTER: AtomicU64 = AtomicU64::new(0);
@@ -176,7 +177,7 @@ impl Target {
         }
         let child = cmd.spawn().map_err(|e| format!("spawn {}: {e}", target_bin()))?;
         let pid = child.id() as i32;
-        let mut t = Target { pid, child: Some(child), manifest: Manifest::default(), ctl, dir: dir.clone(), spec, keep_dir: false };
+        let mut t = Target { pid, child: Some(child), manifest: Manifest::default(), ctl, dir: dir.clone(), spec, keep_dir: false, pause_threads: opts.pause_threads.clone() };
         // wait for the manifest (logical condition; generous watchdog)
         let t0 = std::time::Instant::now();
         loop {
@@ -232,6 +233,31 @@ impl Target {
             std::thread::sleep(std::time::Duration::from_micros(300));
         }
         Ok(t)
+    }
+
+    /// Wait (logical condition, generous watchdog) until every sentinel thread that blocks in
+    /// pause(2) is back inside the syscall — after a dump resumes the target they need to be
+    /// scheduled once before their registers are the known ones again.
+    pub fn settle(&self) -> bool {
+        let t0 = std::time::Instant::now();
+        loop {
+            let mut all = true;
+            for &i in &self.pause_threads {
+                let tid = self.manifest.tids[i];
+                let s = std::fs::read_to_string(format!("/proc/{}/task/{}/syscall", self.pid, tid)).unwrap_or_default();
+                if !s.starts_with("34 ") {
+                    all = false;
+                    break;
+                }
+            }
+            if all {
+                return true;
+            }
+            if t0.elapsed().as_secs() > 30 {
+                return false;
+            }
+            std::thread::sleep(std::time::Duration::from_micros(100));
+        }
     }
 
     pub fn read_mem(&self, addr: u64, len: usize) -> Result<Vec<u8>, String> {
